@@ -20,8 +20,8 @@ FLOORS = {'R11.1': 4, 'R11.2': 4, 'R11.3': 4}
 def r11_1(ctx):
     out = []
     m = ctx.cachedir_methods()
-    entries = [('raw_cache::insert_or_update', ctx.key_of('raw_cache::insert_or_update')),
-               ('raw_cache::insert_or_touch', ctx.key_of('raw_cache::insert_or_touch')),
+    entries = [('raw_cache::insert_or_update', ctx.helper('raw_cache::insert_or_update')),
+               ('raw_cache::insert_or_touch', ctx.helper('raw_cache::insert_or_touch')),
                ('cachedir.set', m['set']), ('cachedir.put', m['put'])]
     for name, k in entries:
         q = ctx.explore(k)
